@@ -207,11 +207,15 @@ def run(tier, selftest=False, only=None):
     sc = UO.scales(rep)
     systems = list(itertools.product(sc["space"], sc["time"], sc["quantity"]))
     for c in cases:
-        check_case(rep, c, rng, systems, swap=False)
+        with rep.guard("equation", {"tight": text_of(c["tight"])}):
+            check_case(rep, c, rng, systems, swap=False)
         if len(rep.violations) > 60:
             break
     for c in rng.sample(cases, min(len(cases), 4000)):
-        check_case(rep, c, rng, systems, swap=True)
+        with rep.guard("equation", {"tight": text_of(c["tight"]), "reversed": True}):
+            check_case(rep, c, rng, systems, swap=True)
+    with rep.guard("network", None):
+        pass
     network_checks(rep, rng)
     matrix_checks(rep, cases, rng)
     rep.traces = len(cases)
